@@ -13,7 +13,6 @@ from harness.props import c04
 ID = 'C29'
 TITLE = 'Read-only calls leave the document untouched'
 PROPS = ['Props/C29']
-DISABLED = True
 RULE = ('documents from the shared history generator (summary tables, lookups, formulas calling lookupOrAddDerived, '
         'documents left dirty by a failed bundle); between bundles a battery of every exported read-only call '
         '(fetch_table with and without formulas/query, fetch_table_schema, fetch_meta_tables, get_table_stats, count_rows, '
@@ -198,7 +197,9 @@ def check_call(e, call, stats=None, hooks=None):
     # outside _pre_update/_post_update): their new values are written without any action reporting them
     d2 = dirty_map(e)
     gone = sorted(k for k in dm if d2.get(k) != dm[k])
-    return ('readonly-call-recomputes-dirty-cells-unreported',
+    return ('readonly-call-recomputes-dirty-cells-unreported'
+            if call[0] in ('get_formula_error', 'evaluate_formula', 'autocomplete') else
+            'non-evaluating-call-recomputes-dirty-cells',
             '%s evaluated dirty cells of %s without reporting them%s' % (
               call[0], gone[:3], ('; tables changed: ' + '; '.join(G.diff_snapshots(before, after)[:2]))
               if after != before else ' (values happened to be unchanged)'), info)
@@ -262,7 +263,10 @@ def run_history(ctx, seed_rng, stats, on_case):
     if ctx.tier != 'thorough' and len(calls) > 60:
       keep = [c for c in calls if c[0] in ('evaluate_formula', 'get_formula_error')]
       rest = [c for c in calls if c[0] not in ('evaluate_formula', 'get_formula_error')]
-      calls = seed_rng.sample(keep, min(len(keep), 30)) + seed_rng.sample(rest, min(len(rest), 30))
+      calls = seed_rng.sample(rest, min(len(rest), 30)) + seed_rng.sample(keep, min(len(keep), 30))
+    # calls that evaluate formulas come last: on a dirty document the first of them ends the battery (known finding)
+    calls = [c for c in calls if c[0] not in ('get_formula_error', 'evaluate_formula', 'autocomplete')] + \
+            [c for c in calls if c[0] in ('get_formula_error', 'evaluate_formula', 'autocomplete')]
     done = []
     for call in calls:
       kind, what, info = check_call(ld1.e, call)
